@@ -64,3 +64,48 @@ Proof.
   exact (crc_streams crc (zc_read (take_read src_read)) _ _ Hz).
 Qed.
 Print Assumptions C09_zipcrypto_stack.
+
+(* ---------- writer side: the sink may accept any non-empty prefix of each write (short writes, never a failure).
+   write_all on the sink -- the primitive every header, descriptor, directory record and compressed stream goes
+   through -- leaves the bytes, the position and the result of a sink that accepts everything at once; the only
+   trace of the chunking is the unconsumed rest of the plan. *)
+From Coq Require Import List.
+From ZipV Require Import Gen.SpecGen Gen.CompressionGen Model.Writer Model.WriterCalls Proofs.ShortWrites.
+Theorem C09_sink_write_all_chunk_independent : forall d bs, nofail (d_plan d) -> d_pos d <= len (d_buf d) ->
+  exists p', nofail p' /\
+    dev_write_all d bs = ({| d_buf := put_at (d_buf d) (d_pos d) bs; d_pos := d_pos d + len bs; d_plan := p' |}, Ok tt).
+Proof. intros d bs Hp Hpos. destruct (dev_write_all_nofail d bs Hp Hpos) as (p' & H & Hn). now exists p'. Qed.
+Print Assumptions C09_sink_write_all_chunk_independent.
+
+Theorem C09_header_fields_chunk_independent : forall d cs, nofail (d_plan d) -> d_pos d <= len (d_buf d) ->
+  exists p', nofail p' /\
+    dev_write_chunks d cs =
+    ({| d_buf := put_at (d_buf d) (d_pos d) (concat cs); d_pos := d_pos d + len (concat cs); d_plan := p' |}, Ok tt).
+Proof. intros d cs Hp Hpos. destruct (dev_write_chunks_nofail cs d Hp Hpos) as (p' & H & Hn). now exists p'. Qed.
+Print Assumptions C09_header_fields_chunk_independent.
+
+(* ZipWriter::write_all (the API call) on an open stored entry: each inner write forwards to ONE sink write, which
+   may be short; the call still writes all of bs, counts len bs and hashes bs -- the closed form does not mention
+   the plan.  (The guard excludes the large-file error, whose point of detection legitimately depends on how much
+   each write took.) *)
+Theorem C09_write_call_chunk_independent : forall enc crc s d bs,
+  ws_to_file s = true -> ws_to_extra s = false -> ws_inner s = WStorer d ->
+  nofail (d_plan d) -> d_pos d <= len (d_buf d) ->
+  (ws_written s + len bs <= ZIP64_BYTES_THR \/ large_last s = true) ->
+  exists p', nofail p' /\
+    do_call enc crc s (KWrite bs) =
+    (wrote s {| d_buf := put_at (d_buf d) (d_pos d) bs; d_pos := d_pos d + len bs; d_plan := p' |} bs, RUnit (Ok tt)).
+Proof.
+  intros enc crc s d bs Hf He Hi Hp Hpos Hlg.
+  destruct (zw_write_all_nofail enc crc bs s d Hf He Hi Hp Hpos Hlg) as (p' & Hn & Hw).
+  exists p'. split; [exact Hn|]. cbn [do_call]. now rewrite Hw.
+Qed.
+Print Assumptions C09_write_call_chunk_independent.
+
+(* the hypotheses are met: a plan of three short writes on an open stored entry *)
+Example C09_writer_nonvacuous :
+  nofail [WShort 1; WShort 3; WShort 2] /\ ~ nofail [WShort 1; WFail].
+Proof.
+  split; [repeat constructor; discriminate|].
+  intro H. inversion H as [|? ? _ H2]. inversion H2 as [|? ? H3 _]. now apply H3.
+Qed.
